@@ -6,6 +6,7 @@ import (
 	"context"
 	"errors"
 	"fmt"
+	"log/slog"
 	"strings"
 	"time"
 
@@ -194,7 +195,7 @@ func VerifC06ApplyActionsOnce() {
 		d.Store = ss
 		calls = &ss.calls
 	}
-	d.applyLeaseActions(nil, actions)
+	d.applyLeaseActions(slog.Default(), actions)
 	for _, a := range actions {
 		hits := 0
 		okArgs := true
